@@ -703,6 +703,18 @@ impl Checker
             if sys.map(|s| self.alive(s)).unwrap_or(false)
             {
                 if let Some(d) = self.deliveries.get(&id).cloned() { self.lost_reaction(&d, "never ran in its tree"); }
+                // C12: the target processes everything one run sent it
+                if let Some(d) = self.deliveries.get(&id).cloned()
+                {
+                    if let Some(sender) = d.sender
+                    {
+                        let siblings = self.deliveries.values().filter(|x| x.id != id && x.sys == d.sys && x.sender == Some(sender)).count();
+                        if siblings >= 1
+                        {
+                            self.viol_sys("C12", sys, format!("delivery {id} (one of {} deliveries of sender {:?} to system {:?}) was never processed by its target", siblings + 1, sender, sys));
+                        }
+                    }
+                }
                 // C09: every command runs in-line (or, postponed, right after its blocker) - not at all is neither
                 self.viol_sys("C09", sys, format!("delivery {id} to the live system {:?} neither ran in-line nor after a blocker: it is still {:?} when the tree's flush returned", sys, st));
             }
@@ -808,7 +820,7 @@ impl Checker
             (Op::RunMany(_, k), Resolved::Sys(s)) =>
             {
                 expected = Some(vec![*s; crate::exec::run_many_len(*k) as usize]);
-                if *k % 4 == 3 { self.rep.classes.hit("C02:tree_of_more_than_1000_commands"); }
+                if *k % 5 >= 3 { self.rep.classes.hit("C02:tree_of_more_than_1000_commands"); }
                 kind = Some(HookKind::Manual);
                 if !self.alive(*s) { self.stale("C18:run_dead_system"); }
                 self.rep.classes.hit("C02:tree_of_more_than_100_commands");
